@@ -288,6 +288,33 @@ def unnormalised_trim_cases(rng, k):
     return out
 
 
+_GRID_BINS = [128, 250, 256, 512, 1024, 150, 130, 41, 47, 63, 97, 333, 777, 1001]
+
+
+def grid_trim_cases(rng, k):
+    """many grid sizes (not only 1000 and the small ones) x ess in {0.9, 0.99, 0.999, 1.0} x weight vectors that need (almost)
+    every sample to keep the requested ESS fraction: nearly flat, mildly dispersed, very short"""
+    out = []
+    for i in range(k):
+        bins = _GRID_BINS[i % len(_GRID_BINS)] if i % 3 else rng.randint(21, 1100)
+        ess = [0.9, 0.99, 0.999, 1.0][(i // 2) % 4]
+        fam = ["flat", "mild", "short", "flat"][i % 4]
+        if fam == "flat":
+            n = rng.randint(50, 500)
+            a = 10.0 ** rng.uniform(-4, -0.7)
+            w = [1.0 + a * rng.random() for _ in range(n)]
+        elif fam == "mild":
+            n = rng.randint(50, 500)
+            sg = rng.uniform(0.02, 0.3)
+            w = [math.exp(sg * rng.gauss(0, 1)) for _ in range(n)]
+        else:
+            n = rng.randint(1, 12)
+            w = [rng.choice([1.0, 1.0, 1.0 + rng.random()]) for _ in range(n)]
+        sc = rng.choice([1.0, 1.0, 1e-20, 1e20])
+        out.append(([x * sc for x in w], ess, bins))
+    return out
+
+
 def _trim_cases(tier, rng):
     c20 = _c20()
     cases = [([1.0, 1.0, 1.0, 1.0], 0.99, 1000), ([0.5, 0.5], 0.5, 1), ([1.0], 0.99, 1000), ([1.0, 2.0, 3.0, 4.0], 0.9, 5),
@@ -315,6 +342,7 @@ def _trim_cases(tier, rng):
         else:
             cases.append((w, rng.choice([0.05, 0.3, 0.5, 0.9, 0.99, 0.999]), rng.choice([2, 3, 10, 100, 1000])))
     cases += unnormalised_trim_cases(rng, 36 if tier == "quick" else 600)
+    cases += grid_trim_cases(rng, 42 if tier == "quick" else 600)
     # the full length of the quantifier with the sampler's constants
     for _ in range(2 if tier == "quick" else 12):
         _, w = c20._trim_weights_T(rng, 10000)
@@ -331,6 +359,7 @@ def suite_trim_property(tier):
         c.case(([f2hex(x) for x in w[:64]], n, ess, bins), n >= 2)
         c.count("n>=10000" if n >= 10000 else ("n>600" if n > 600 else "n<=600"))
         c.count("sampler-constants" if (ess, bins) == (0.99, 1000) else "other-constants")
+        c.count("bins:" + ("1" if bins == 1 else "2-20" if bins <= 20 else "21-200" if bins <= 200 else "1000" if bins == 1000 else "201-1100"))
         sw = float(np.sum(np.array(w, dtype=float)))
         c.count("sum(w)~1" if abs(sw - 1.0) < 1e-6 else ("sum(w)<1e-6" if sw < 1e-6 else ("sum(w)>1e6" if sw > 1e6 else "sum(w)!=1")))
         try:
